@@ -6,7 +6,7 @@ eviction order probed behaviourally (fresh inserts) at the end of every history
 and on every copy().
 """
 from checks import common
-from checks.cachemodel import Model, on_miss_fn, prefetch_pairs
+from checks.cachemodel import Model, on_miss_fn, prefetch_pairs, refuses
 from checks.common import outcome
 from checks.common.history import Failure, explore
 
@@ -73,6 +73,8 @@ class Run(object):
             self.log.append(key)
             if cfg.get('on_miss') == 'prefetch':
                 self.c.update(prefetch_pairs(key))   # a loader that stores a whole page itself
+            if cfg.get('on_miss') == 'partial' and refuses(key):
+                raise KeyError(key)                  # a backing store that does not have this key either
             return on_miss_fn(key)
         kw = {}
         if self.has_on_miss:
@@ -356,7 +358,7 @@ class Check(object):
     def gen(self, r, ctx):
         ms = r.choice([1, 1, 2, 2, 3, 3, 4, 5, 128])
         cfg = {'cls': r.choice(['LRI', 'LRU']), 'max_size': ms,
-               'on_miss': r.choice([False, False, False, True, True, 'prefetch'])}
+               'on_miss': r.choice([False, False, False, True, True, 'prefetch', 'partial'])}
         if r.random() < 0.25:
             cfg['keys'] = 'mixed'
         pool = pool_for(cfg)
@@ -389,6 +391,9 @@ class Check(object):
             elif kind in ('update', 'ior'):
                 shape = r.choice(['dict', 'pairs', 'iter', 'cache', 'self'])
                 pairs = [[r.choice(pool), r.randint(0, 9)] for _ in range(r.randint(0, ms + 2 if ms < 100 else 5))]
+                if r.random() < 0.08:
+                    # a long replayed log: hundreds of pairs over few keys (hot keys repeat, also near the end)
+                    pairs = [[r.choice(pool), r.randint(0, 9)] for _ in range(r.choice([ms + 63, ms + 64, ms + 65, 200, 400]))]
                 o = [kind, shape, pairs if shape != 'self' else []]
                 if kind == 'update':
                     o.append([[r.choice([x for x in pool if isinstance(x, str)]), r.randint(0, 9)]] if r.random() < 0.25 else [])
